@@ -81,7 +81,14 @@ RESERVED = {'PATH', 'PWD', 'OLDPWD', 'SHLVL', '_', 'IFS', 'HOME', 'LANG', 'SHELL
 RESERVED_PFX = ('RP_', 'BASH', 'COMP_', 'LC_', 'C10_', 'PMIX_', 'OMPI_', 'HIST', 'READLINE_')
 
 
+# names the launch methods treat specially for *named environments* (get_env_blacklist: RP_*,
+# OMPI_*, ...) but which a user may well describe for the task itself
+USER_SPECIAL = ('RP_APP_MODE', 'OMPI_MCA_verif')
+
+
 def _safe_name(n):
+    if n in USER_SPECIAL:
+        return n
     u = n.upper()
     if u in RESERVED or u.startswith(RESERVED_PFX) or n in ('sig', 'ret'):
         return 'v_' + n
@@ -196,6 +203,8 @@ def gen_case(seed):
     case['post'] = g_prep(rnd, ranks, False, fail_where == 'post')
     case['sync'] = ranks > 1 and rnd.randrange(4) == 0
     # earlier tasks handled by the same executor (drawn last: the fields above keep their values)
+    if rnd.randrange(4) == 0:
+        case['env'].append([rnd.choice(USER_SPECIAL), g_value(rnd)])
     case['before'] = [rnd.choice(['export', 'export', 'fail', 'rank'])
                       for _ in range(rnd.choice([0, 0, 0, 1, 1, 2]))]
     return case
